@@ -4,7 +4,7 @@ premises).  Run time: FAULT ENUMERATION on the implementation (test support for 
 a record-aware man-in-the-middle between two socketpairs; the oracle is the property text."""
 from vlib import core
 
-WRAP = "-Wl,--wrap=tls_record_send,--wrap=tls_record_recv,--wrap=sm2_do_ecdh,--wrap=tls_pre_master_secret_generate,--wrap=tls_record_set_handshake_certificate,--wrap=hkdf_expand"
+WRAP = "-Wl,--wrap=tls_record_send,--wrap=tls_record_recv,--wrap=sm2_do_ecdh,--wrap=tls_pre_master_secret_generate,--wrap=tls_record_set_handshake_certificate,--wrap=hkdf_expand,--wrap=tls_uint24array_to_bytes"
 PROTOS = ["tlcp", "tls12", "tls13"]
 
 
@@ -25,31 +25,45 @@ def run(ctx):
     r = ctx.rng
     thorough = ctx.tier == "thorough"
     seeds = [11 + ctx.seed % 1000] if not thorough else [11 + ctx.seed % 1000, 12 + ctx.seed % 1000]
-    configs = [(p, a, s) for p in PROTOS for a in (0, 1) for s in seeds]
-    louts, _ = core.run_lines(exe, ["layout %s %d %d" % c for c in configs], shards=min(6, len(configs)))
+    # (protocol, auth mode, seed, number of CA certificates in trust store / client-CA bundle): with mutual
+    # authentication also 3 CA names in CertificateRequest, so that every part of every message type that
+    # exists only in some configuration (CertificateRequest, client Certificate, CertificateVerify) is swept
+    configs = [(p, a, s, 1) for p in PROTOS for a in (0, 1) for s in seeds] + [(p, 1, seeds[0] + 50, 3) for p in PROTOS]
+    louts, _ = core.run_lines(exe, ["layout %s %d %d d %d" % c for c in configs], shards=min(9, len(configs)))
     cases = []
-    for (proto, auth, seed), lo in zip(configs, louts):
+    seen_types = {}
+    for (proto, auth, seed, nca), lo in zip(configs, louts):
         ctx.cov["evaluations"] += 1
         f = fields(lo) if "=" in lo else {}
         if f.get("rc") != "1" or f.get("rs") != "1" or f.get("okc") != "1" or f.get("oks") != "1":
-            ctx.violation("mitm:%s:auth%d:baseline" % (proto, auth), "fault-free run through the proxy does not complete: " + lo[:200],
-                          {"kind": "failing-input", "op": "layout %s %d %d" % (proto, auth, seed), "impl": lo[:1000]})
+            ctx.violation("mitm:%s:auth%d:nca%d:baseline" % (proto, auth, nca), "fault-free run through the proxy does not complete: " + lo[:200],
+                          {"kind": "failing-input", "op": "layout %s %d %d d %d" % (proto, auth, seed, nca), "impl": lo[:1000]})
             continue
-        ctx.cell("mitm:%s:auth%d:baseline" % (proto, auth))
+        ctx.cell("mitm:%s:auth%d:nca%d:baseline" % (proto, auth, nca))
         lay = [parse_layout(f["c2s"]), parse_layout(f["s2c"])]
         # handshake records = all but the two application records each side sends afterwards
         nhs = [len(lay[0]) - 2, len(lay[1]) - 2]
         # the very last handshake record on the wire: server Finished (TLCP/TLS 1.2), client Finished (TLS 1.3)
         last = (0, nhs[0] - 1) if proto == "tls13" else (1, nhs[1] - 1)
-        ctx.sample({"op": "layout %s %d %d" % (proto, auth, seed), "result": "c2s=%s s2c=%s" % (f["c2s"], f["s2c"])})
+        ctx.sample({"op": "layout %s %d %d d %d" % (proto, auth, seed, nca), "result": "c2s=%s s2c=%s" % (f["c2s"], f["s2c"])})
+        for d_ in (0, 1):
+            for (typ_, ln_, ht_) in lay[d_][:nhs[d_]]:
+                if typ_ == 22:
+                    seen_types.setdefault(proto, set()).add(ht_ if ht_ in (1, 2, 11, 12, 13, 14, 15, 16) else 20)
         step = 3 if not thorough else 1
         for d in (0, 1):
             for i in range(nhs[d]):
                 typ, ln, ht = lay[d][i]
                 base = "fault %s %d %d" % (proto, auth, seed)
-                cellb = "mitm:%s:auth%d" % (proto, auth)
+                tail = " d %d" % nca
+                cellb = "mitm:%s:auth%d%s" % (proto, auth, "" if nca == 1 else ":nca%d" % nca)
                 plain_hs = typ == 22
-                offs = set(range(5 + r.below(step), ln, step))
+                # messages that exist only with client authentication: every byte, also in the quick tier
+                only_some = plain_hs and ht in (0x0d, 0x0f) or (plain_hs and ht == 0x0b and d == 0)
+                if nca > 1 and not only_some and not thorough:
+                    continue                                   # the extra configuration is there for those messages
+                st = 1 if only_some else step
+                offs = set(range(5 + (r.below(st) if st > 1 else 0), ln, st))
                 if plain_hs:
                     offs |= {5, 6, 7, 8} & set(range(ln))          # handshake type and uint24 length
                 offs |= {ln - 1}
@@ -57,12 +71,12 @@ def run(ctx):
                     bits = range(8) if (thorough and (off in (5, 6, 7, 8) or off % 16 == 0)) else [r.below(8)]
                     for bit in bits:
                         cls = "hs-header" if (plain_hs and off in (5, 6, 7, 8)) else ("plain-body" if plain_hs else ("ccs" if typ == 20 else "protected"))
-                        cases.append(("%s flip %d %d %d %d 0" % (base, d, i, off, bit), "%s:flip:%s" % (cellb, cls), (d, i == nhs[d] - 1), "flip"))
+                        cases.append(("%s flip %d %d %d %d 0%s" % (base, d, i, off, bit, tail), "%s:flip:%s" % (cellb, cls + (":client-auth-message" if only_some else "")), (d, i == nhs[d] - 1), "flip"))
                 for kind, keeps in (("drop", [0]), ("dup", [0]), ("swap", [0]), ("inject", [0]),
                                     ("trunc-close", sorted({5, ln - 1, 5 + r.below(max(1, ln - 5))})),
                                     ("trunc-fixlen", sorted({5, ln - 1, 5 + r.below(max(1, ln - 5))}))):
                     for keep in keeps:
-                        cases.append(("%s %s %d %d 0 0 %d" % (base, kind, d, i, keep), "%s:%s" % (cellb, kind), (d, i == nhs[d] - 1), kind))
+                        cases.append(("%s %s %d %d 0 0 %d%s" % (base, kind, d, i, keep, tail), "%s:%s" % (cellb, kind), (d, i == nhs[d] - 1), kind))
     outs, _ = core.run_lines(exe, [c[0] for c in cases], shards=16)
     nfault = 0
     for (line, cell, is_last, kind), out in zip(cases, outs):
@@ -96,6 +110,12 @@ def run(ctx):
             ctx.violation(cell + ":completed-server-accepts-data", "the server completed (the client did not) and then accepted application data [%s] -> %s" % (line, out[:120]), rep); continue
         ctx.cell(cell + (":neither" if rc != "1" and rs != "1" else ":one-side-then-rejects"))
     ctx.notes.append("%d faults applied" % nfault)
+    names = {1: "ClientHello", 2: "ServerHello", 11: "Certificate", 12: "ServerKeyExchange", 13: "CertificateRequest", 14: "ServerHelloDone", 15: "CertificateVerify", 16: "ClientKeyExchange", 20: "Finished(protected)"}
+    ctx.cov["swept_plaintext_handshake_types"] = {p: sorted(names.get(t, "type %d" % t) for t in ts) for p, ts in seen_types.items()}
+    for p in ("tlcp", "tls12"):
+        missing = {13, 15, 11, 12, 14, 16, 1, 2} - seen_types.get(p, set())
+        if missing:
+            ctx.violation("mitm:%s:coverage" % p, "handshake message types never swept in any configuration: %s" % sorted(missing), {"kind": "coverage", "missing": sorted(missing)}, False)
     return finish(ctx)
 
 
